@@ -49,6 +49,7 @@ func runC14(c *Ctx) {
 	c.ruleStatusStrings("R14.4")
 	c.ruleContextRetiredAtomically("R14.5")
 	c.ruleOptionsAllApplied("R14.6")
+	c.ruleLifecycleVsListener("R14.7")
 }
 
 func orderedSubseq(effects, need []string) bool {
@@ -1153,5 +1154,56 @@ func (c *Ctx) ruleOptionsAllApplied(rule string) {
 	}
 	if len(fns) == 0 {
 		c.Rep.undecided(rule, "-", "no variadic option parameter found", "", "no function with a variadic option parameter")
+	}
+}
+
+// ruleLifecycleVsListener: with a configured context the library itself calls Stop() asynchronously (the context
+// listener). Nothing serialises that call with the user's lifecycle calls, so (i) the listener's "is this still my
+// context?" test is stale by the time its Stop() acts — a Stop();Restart() by the user in between gets the restarted
+// worker stopped although its context was never cancelled — and (ii) every lifecycle method that tests the status and
+// then writes it with a plain store can overwrite what the listener's Stop() stored in between (Resume storing Running
+// over Stopped: a worker that reports Running with its channels torn down). Decided structurally: (i) the listener's
+// Stop is reached after the lock that covered the comparison was released, and the callee is not given the listener's
+// context to re-validate; (ii) plain stores of the status in Pause/Resume/Restart/start.
+func (c *Ctx) ruleLifecycleVsListener(rule string) {
+	R := c.R
+	c.Rep.rule(rule, "E5 check-then-act", "with a context listener: its currency test and its Stop are atomic, and lifecycle methods change the status by compare-and-swap from the state they tested", 1)
+	if R.Listener == nil {
+		c.Rep.ok(rule, "no context listener goroutine", "", "nothing to check", false)
+		return
+	}
+	stop := c.methodOf(R.WorkerT, "Stop")
+	info := R.Listener.Info()
+	// (i)
+	var param types.Object
+	if R.Listener.Type.Params != nil && len(R.Listener.Type.Params.List) == 1 && len(R.Listener.Type.Params.List[0].Names) == 1 {
+		param = info.ObjectOf(R.Listener.Type.Params.List[0].Names[0])
+	}
+	for _, cs := range c.P.calls(R.Listener) {
+		if stop == nil || !c.P.roleKeys(stop)[cs.Callee.Key] {
+			continue
+		}
+		revalidates := false
+		for _, a := range cs.Call.Args {
+			if param != nil && rootIdent(info, a) == param {
+				revalidates = true
+			}
+		}
+		c.Rep.check(revalidates, rule, R.Listener.Short(), "currency test and Stop are not atomic", c.P.pos(cs.Call), "the stop operation re-validates the listener's context itself",
+			"the context listener decides under the lock that its context is still the worker's current one, releases the lock and then calls Stop(): a Stop();Restart() by the user in that window (Stop's own cancel wakes the listener) lets the old run's listener stop the restarted worker although its context was never cancelled")
+	}
+	// (ii)
+	lm := c.lifecycleMethods()
+	for _, name := range []string{"Pause", "Resume", "Restart", "start"} {
+		f := lm[name]
+		if f == nil {
+			continue
+		}
+		for _, cs := range c.P.calls(f) {
+			if fk, m := atomicOp(f.Info(), cs.Call); fk == R.FStatus && m == "Store" {
+				c.Rep.fail(rule, name, "status written by a plain store after a separate test", c.P.pos(cs.Call),
+					name+" tests the worker status and later writes it with a plain store; the context listener's asynchronous Stop() is not serialised with it, so the store can overwrite what that Stop wrote in between (e.g. Resume storing Running over Stopped: the worker reports Running with its channels torn down and a cancelled context)")
+			}
+		}
 	}
 }
